@@ -108,7 +108,33 @@ func Exec(s core.Schedule) *core.Outcome {
 			return out
 		}
 	}
-	if cfg.Prop == "C10" {
+	if cfg.Prop == "C14" {
+		r.waitPending()
+		// quiet period: heal, then two reconcile periods (30 s each, hard-wired in table.Manager)
+		for _, n := range w.nodes() {
+			if !n.up {
+				_ = n.start()
+			}
+		}
+		for _, s := range w.u.Shards() {
+			for id, rep := range s.Replicas {
+				if rep.Lagging {
+					w.u.SetLag(s.Key.Cluster, s.Key.ShardID, id, false)
+				}
+			}
+		}
+		w.u.CatchUpAll()
+		time.Sleep(300 * time.Millisecond)
+		settle()
+		r.checkFatals()
+		r.checkCatalogue()
+		time.Sleep(61 * time.Second)
+		settle()
+		w.u.CatchUpAll()
+		settle()
+		r.checkFatals()
+		r.checkReconciled()
+	} else if cfg.Prop == "C10" {
 		r.waitPending()
 		r.checkFatals()
 		r.checkHistory()
